@@ -37,7 +37,7 @@ class Parser(Emitter):
             formulaserror.clear_tracebacks()
 
         if isinstance(result, formulaserror.XLError):
-            error = str(result)
+            error = str(formulaserror.from_message(result))
             result = None
         return {'result': result, 'error': error}
 
